@@ -100,8 +100,8 @@ def rule_idempotent(ctx, M):
             ctx.ok(rule, {"wrapper": w.path, "writes_to_state": 0}, sample=True)
 
 
-def rule_plumbing(ctx, M):
-    rule = "C04.plumbing"
+def rule_plumbing(ctx, M, prefix="C04"):
+    rule = prefix + ".plumbing"
     ctx.rule(rule, "scope(a,b,c,d) reaches the iterator's start-turn/start-river/end-turn/end-river; new() = (0,1,L-1,L); exhaustion compares the right pairs")
     pl = M.plumbing()
     names = M.iter_field_names()
@@ -167,11 +167,11 @@ def rule_plumbing(ctx, M):
                       fn=fn.path, file=fn.file, line=fn.line)
 
 
-def rule_successor(ctx, M):
+def rule_successor(ctx, M, prefix="C04"):
     """the position moves to its lexicographic successor: river+1 while river < L-1, else (turn+1, turn+2);
     nothing else writes the position (necessary for 'position by position in that order' and for landing exactly
     on a scope's end, which the >=-shaped exhaustion test relies on)."""
-    rule = "C04.successor"
+    rule = prefix + ".successor"
     ctx.rule(rule, "the only writes to the position are river += 1 (under river < L-1) and turn += 1; river = turn + 1, outside any loop")
     pl = M.plumbing()
     T, R = pl["turn_from"][1], pl["river_from"][1]
